@@ -277,6 +277,7 @@ pub fn run(ctx: &Ctx) -> i32 {
         let mut cfg = Cfg::normal();
         cfg.max_items = 6;
         cfg.max_parts = 6;
+        cfg.pragma = Some(rng.ps(&["0.8.17", "0.7.6", "0.8.3", "0.8.4"]).to_string());
         let mut b = Builder::new(rng, cfg);
         let f = b.file();
         drop(b);
